@@ -9,11 +9,17 @@ H = 0.5 * math.log(2 * math.pi)
 
 # ---------------------------------------------------------------------------------------------
 # definitions
-def dense_logN(torch, y, m, A):
-    """log N(y; m, A) per batch element: y, m (*B, N), A (*B, N, N)"""
+def _broadcast(torch, y, m, A):
+    """y (*TB, N), m (*B, N), A (*B', N, N) with batch shapes that broadcast -> all three with the broadcast batch shape"""
     N = y.shape[-1]
-    m = m.expand(y.shape)
-    A = A.expand(*y.shape[:-1], N, N)
+    OB = torch.broadcast_shapes(y.shape[:-1], m.shape[:-1], A.shape[:-2])
+    return y.expand(*OB, N), m.expand(*OB, N), A.expand(*OB, N, N)
+
+
+def dense_logN(torch, y, m, A):
+    """log N(y; m, A) per (broadcast) batch element: y (*TB, N), m (*B, N), A (*B, N, N)"""
+    N = y.shape[-1]
+    y, m, A = _broadcast(torch, y, m, A)
     L = torch.linalg.cholesky(A)
     z = torch.linalg.solve_triangular(L, (y - m).unsqueeze(-1), upper=False).squeeze(-1)
     return -0.5 * (z ** 2).sum(-1) - torch.log(torch.diagonal(L, dim1=-1, dim2=-2)).sum(-1) - N * H
@@ -23,8 +29,7 @@ def dense_loo_terms(torch, y, m, A):
     """log p(y_i | all other observations), i = 1..N, per batch element: the Gaussian conditional on the data set with
     point i deleted (N separate solves; nothing of the bordered-system shortcut)."""
     N = y.shape[-1]
-    m = m.expand(y.shape)
-    A = A.expand(*y.shape[:-1], N, N)
+    y, m, A = _broadcast(torch, y, m, A)
     out = []
     for i in range(N):
         o = torch.tensor([j for j in range(N) if j != i], dtype=torch.long)
@@ -55,7 +60,15 @@ def log_density(torch, fam, p, x):
 
 
 def per_batch_sum(t, B):
+    """t: a term of a parameter with batch shape B -> one value per batch element of the parameter"""
     return t.reshape(*B, -1).sum(-1) if len(B) else t.sum()
+
+
+def weights(torch, shape):
+    """distinct weights of the batch elements of the objective: the compared gradient is that of sum_q w_q * objective_q, so a
+    batch element with a wrong gradient is not hidden by another one"""
+    nb = int(math.prod(shape))
+    return (1.0 + 0.25 * torch.arange(nb, dtype=torch.float64)).reshape(tuple(shape))
 
 
 # ---------------------------------------------------------------------------------------------
@@ -107,7 +120,9 @@ def randomize(torch, model, g):
 def build_cell(torch, gpytorch, cell, seed):
     """real model of one lattice cell; returns dict(model, lik, x, y, acc) where acc maps the spec's parameter names to
     functions returning the CONSTRAINED value, and pp maps them to the prior parameters drawn for this instance.
-    cell["reg"]: priors passed to the constructors ("ctor") or registered afterwards by parameter name ("name")."""
+    cell["reg"]: priors passed to the constructors ("ctor") or registered afterwards by parameter name ("name").
+    cell["B"]: batch shape of every module (= of the marginal distribution); cell["tb"]: batch shape of the target;
+    cell["xb"]: the inputs carry B too ("batched") or one set of inputs is shared by the batch of hyperparameter settings."""
     import random
     rnd = random.Random(seed)
     g = torch.Generator().manual_seed(seed)
@@ -115,6 +130,8 @@ def build_cell(torch, gpytorch, cell, seed):
     later = []                       # (module, prior name, prior, parameter name) registered after construction
     D = torch.float64
     B = tuple(cell["B"])
+    TB = tuple(cell.get("tb", B))
+    XB = B if cell.get("xb", "batched") == "batched" else ()
     BS = torch.Size(B)
     lik_kind = cell["lik"]
     T = 2 if lik_kind in ("mt0", "mt1") else 1
@@ -152,9 +169,10 @@ def build_cell(torch, gpytorch, cell, seed):
     else:
         data_kernel = part(cell["kernel"], 1)
     mean = gpytorch.means.ConstantMean(batch_shape=BS) if cell["mean"] == "const" else gpytorch.means.LinearMean(input_size=d, batch_shape=BS)
-    x = torch.rand(*B, n, d, generator=g, dtype=D) * 2 - 1
-    yshape = (*B, n, T) if T > 1 else (*B, n)
-    y = torch.sin(2 * x.sum(-1, keepdim=T > 1)).expand(yshape) + 0.3 * torch.randn(yshape, generator=g, dtype=D)
+    x = torch.rand(*XB, n, d, generator=g, dtype=D) * 2 - 1
+    yshape = (*TB, n, T) if T > 1 else (*TB, n)
+    signal = torch.sin(2 * x.reshape(-1, n, d)[0].sum(-1, keepdim=T > 1))          # of the first set of inputs: broadcasts to every target shape
+    y = signal.expand(yshape) + 0.3 * torch.randn(yshape, generator=g, dtype=D)
     fixed = None
     L = gpytorch.likelihoods
     if lik_kind == "homo":
@@ -197,7 +215,7 @@ def build_cell(torch, gpytorch, cell, seed):
     randomize(torch, model, g)
     model.train()
     lik.train()
-    return dict(model=model, lik=lik, x=x, y=y, acc=accessors(cell, model), pp=pp, T=T, n=n, B=B, fixed=fixed, gen=g)
+    return dict(model=model, lik=lik, x=x, y=y, acc=accessors(cell, model), pp=pp, T=T, n=n, B=B, TB=TB, fixed=fixed, gen=g)
 
 
 def build_with_history(torch, gpytorch, cell, seed):
@@ -244,12 +262,14 @@ def noise_matrix(torch, b, cell):
 
 
 def reference(torch, b, cell, exp):
-    """the dense definition for this cell: (main term + log prior densities of the spec's term list) / observations"""
+    """the dense definition for this cell: (main term + log prior densities of the spec's term list) / observations, one value
+    per element of the broadcast of the distribution's and the target's batch shapes; the number of observations is that of
+    ONE batch element (n x tasks)"""
     model, x, y, B, n, T = b["model"], b["x"], b["y"], b["B"], b["n"], b["T"]
     Kd = model.covar_module(x).to_dense()
     m = model.mean_module(x)
     A = Kd + noise_matrix(torch, b, cell)
-    yy, mm = y.reshape(*B, n * T), m.reshape(*m.shape[:-2], n * T) if T > 1 else m
+    yy, mm = y.reshape(*b["TB"], n * T), m.reshape(*m.shape[:-2], n * T) if T > 1 else m
     if cell["obj"] == "mll":
         main = dense_logN(torch, yy, mm, A)
         div = n * exp["tasks"]
@@ -262,23 +282,33 @@ def reference(torch, b, cell, exp):
             raise core.Machinery("spec term %s has no parameter / prior in the built model for cell %s" % (name, cell))
         if b["pp"][name][0] != fam:
             raise core.Machinery("spec term %s family %s but the model was built with %s" % (name, fam, b["pp"][name][0]))
+        # the parameter has batch shape B: its term goes to the batch elements of the objective that read that batch element
         total = total + per_batch_sum(log_density(torch, fam, b["pp"][name][1], b["acc"][name]()), B)
+    if tuple(total.shape) != tuple(exp["shape"]):
+        raise core.Machinery("dense definition has shape %s, the spec's objective %s for cell %s" % (list(total.shape), exp["shape"], cell))
     return total / div, A
 
 
 def run_cell(torch, gpytorch, case):
     cell, exp, seed = case["cell"], case["exp"], case["seed"]
     B = tuple(cell["B"])
+    TB, xb = tuple(cell.get("tb", B)), cell.get("xb", "batched")
+    OB, pattern = tuple(exp.get("shape", B)), exp.get("pattern", "equal")
     reg, hist = cell.get("reg", "ctor"), cell.get("hist", "fresh")
-    desc = "%s kernel=%s mean=%s lik=%s batch=%s priors(ls,os,noise)=%s path=%s%s seed=%d" % (
-        cell["obj"], cell["kernel"], cell["mean"], cell["lik"], list(B), list(cell["pri"]), cell["path"],
+    desc = "%s kernel=%s mean=%s lik=%s batch=%s%s priors(ls,os,noise)=%s path=%s%s seed=%d" % (
+        cell["obj"], cell["kernel"], cell["mean"], cell["lik"], list(B),
+        "" if (TB, xb) == (B, "batched") else " target batch=%s (%s) inputs=%s" % (list(TB), pattern, xb), list(cell["pri"]), cell["path"],
         "" if (reg, hist) == ("ctor", "fresh") else " registered=%s history=%s" % (reg, hist), seed)
-    base = "C02/dense/%s/%s/B%d" % (cell["obj"], cell["lik"], len(B)) + ("" if (reg, hist) == ("ctor", "fresh") else "/%s-%s" % (reg, hist))
-    key = [cell[k] for k in ("obj", "kernel", "mean", "lik", "B", "pri", "path")] + [reg, hist]
+    base = "C02/dense/%s/%s/B%d" % (cell["obj"], cell["lik"], len(B)) + ("" if (reg, hist) == ("ctor", "fresh") else "/%s-%s" % (reg, hist)) \
+        + ("" if pattern == "equal" else "/target-" + pattern) + ("" if xb == "batched" else "/shared-inputs")
+    # LeaveOneOutPseudoLikelihood reshapes the mean to the target's shape (ExactObjective.tla LooShapeOK; repair "loo_broadcast")
+    loo_shape = cell["obj"] == "loo" and not exp.get("looAligned", True)
+    key = [cell[k] for k in ("obj", "kernel", "mean", "lik", "B", "pri", "path")] + [reg, hist, list(TB), xb]
     res = dict(key=key, ok=True, nontrivial=True, sample=dict(cell=desc))
 
     def fail(sym, detail):
-        res.update(ok=False, sig=base + "/" + sym, detail=desc + ": " + detail, case=case)
+        sig = "C02/loo-mean-reshaped-to-target/dense/%s/%s" % (pattern, sym) if loo_shape and sym in ("raises", "value", "grad") else base + "/" + sym
+        res.update(ok=False, sig=sig, detail=desc + ": " + detail, case=case)
         return res
 
     ok, b = core.guarded(build_with_history, torch, gpytorch, cell, seed)
@@ -295,7 +325,8 @@ def run_cell(torch, gpytorch, case):
     ev = torch.linalg.eigvalsh(A.detach())
     if float(ev.min()) <= 0 or float((ev.max(-1).values / ev.min(-1).values).max()) > 1e4:
         raise core.Machinery("generated instance is not well conditioned: %s" % desc)
-    gref = torch.autograd.grad(ref.sum(), params, allow_unused=True)
+    w = weights(torch, OB)
+    gref = torch.autograd.grad((w * ref).sum(), params, allow_unused=True)
     cls = gpytorch.mlls.ExactMarginalLogLikelihood if cell["obj"] == "mll" else gpytorch.mlls.LeaveOneOutPseudoLikelihood
     obj = cls(lik, model)
 
@@ -303,25 +334,27 @@ def run_cell(torch, gpytorch, case):
         if cell["path"] == "chol_setting":
             with gpytorch.settings.fast_computations(log_prob=False):
                 v = obj(model(x), y)
-                return v, torch.autograd.grad(v.sum(), params, allow_unused=True)
+                return v, torch.autograd.grad((w * v).sum() if tuple(v.shape) == OB else v.sum(), params, allow_unused=True)
         v = obj(model(x), y)
-        return v, torch.autograd.grad(v.sum(), params, allow_unused=True)
+        return v, torch.autograd.grad((w * v).sum() if tuple(v.shape) == OB else v.sum(), params, allow_unused=True)
 
     ok, r = core.guarded(code)
     if not ok:
         return fail("raises", "objective raised %s" % r)
     val, gcode = r
-    if tuple(val.shape) != B:
-        return fail("shape", "objective has shape %s, batch shape is %s" % (list(val.shape), list(B)))
+    if tuple(val.shape) != OB:
+        return fail("shape", "objective has shape %s, the batch shapes of the distribution %s and of the target %s broadcast to %s" % (
+            list(val.shape), list(B), list(TB), list(OB)))
     g, why = core.close(val.detach(), ref.detach(), 1e-7, 1e-9)
     if not g:
-        return fail("value", "objective %s differs from the dense definition %s: %s" % (val.detach().tolist(), ref.detach().tolist(), why))
+        return fail("value", "objective %s differs from the dense definition [log N + log priors] / %d observations = %s: %s" % (
+            val.detach().tolist(), b["n"] * (exp["tasks"] if cell["obj"] == "mll" else 1), ref.detach().tolist(), why))
     for (name, p), gc, gr in zip(named, gcode, gref):
         gc = torch.zeros_like(p) if gc is None else gc
         gr = torch.zeros_like(p) if gr is None else gr
         g, why = core.close(gc, gr, 1e-6, 1e-9)
         if not g:
-            return fail("grad", "gradient w.r.t. %s differs from autograd of the dense definition: %s" % (name, why))
+            return fail("grad", "gradient (of the weighted sum over the batch elements) w.r.t. %s differs from autograd of the dense definition: %s" % (name, why))
     res["n"] = 1 + len(named)
     res["sample"]["value"] = val.detach().reshape(-1).tolist()
     res["sample"]["raw_hyperparameters_compared"] = [nm for nm, _ in named]
